@@ -339,15 +339,17 @@ def file_race_store(sl):
     RID, DECOY = [("race-1", "race-2"), ("8.13.0-[arm64]", "8.13.0-a"), ("run*", "run-other"), ("r?ce", "race")][concrete(fresh_int("race_id_spelling", 0, 3))]
     d = tempfile.mkdtemp(prefix="verif-c08-")
     try:
-        def cfg_for(rid):
+        def cfg_for(rid, track_filter=None, name_filter=None):
             return StubCfg({("system", "env.name"): "unittest", ("node", "root.dir"): d, ("system", "race.id"): rid, ("system", "list.max_results"): 10,
-                            ("system", "admin.track"): None, ("system", "list.races.benchmark_name"): None, ("system", "list.from_date"): None,
+                            ("system", "admin.track"): track_filter, ("system", "list.races.benchmark_name"): name_filter, ("system", "list.from_date"): None,
                             ("system", "list.to_date"): None})
 
         decoy = metrics.Race("2.12", "rev", "env", DECOY, datetime.datetime(2023, 1, 1, 12, 0, 0), "from-sources", {"name": "decoy"}, tr, {}, ch, ["defaults"], {}, {},
                              results=metrics.GlobalStatsCalculator(_store(), tr, ch)())
         metrics.FileRaceStore(cfg_for(DECOY)).store_race(decoy)
-        race = metrics.Race("2.12", "rev", "env", RID, datetime.datetime(2024, 1, 1, 12, 0, 0), "from-sources", {"name": "n"}, tr, {"p": 1}, ch, ["defaults"],
+        # the race is tagged either way the docs offer for `list races --benchmark-name`
+        tag_key = sl.get("tag", "name")
+        race = metrics.Race("2.12", "rev", "env", RID, datetime.datetime(2024, 1, 1, 12, 0, 0), "from-sources", {tag_key: "n"}, tr, {"p": 1}, ch, ["defaults"],
                             {}, {}, results=res)
         store = metrics.FileRaceStore(cfg_for(RID))
         store.store_race(race)
@@ -359,15 +361,20 @@ def file_race_store(sl):
             return
         listed = [r for r in store.list() if r.race_id != DECOY]
         n_listed = len(store.list())
+        # `list races --track=... --benchmark-name=...`: the stored race matches every one of these filters
+        f_track, f_name = {"track": ("tr", None), "name": (None, "n"), "both": ("tr", "n")}[sl.get("filters", "track")]
+        filtered = [r.race_id for r in metrics.FileRaceStore(cfg_for(RID, f_track, f_name)).list()]
     finally:
         shutil.rmtree(d, ignore_errors=True)
     observe("list shows both races", n_listed == 2)
+    core.note("filters / listed", ((f_track, f_name), filtered))
+    observe("a stored race that matches the list filters (track, benchmark name) is listed, once", filtered.count(RID) == 1 and (f_name is None or filtered == [RID]))
     core.trace("n", n)
     core.note("values", (vals, g))
     res2 = metrics.GlobalStats(back.results)
     observe("the stored race is found (not a similarly named one) and listed", len(listed) == 1 and listed[0].race_id == RID and back.race_id == RID)
     observe("race attributes survive the file", back.race_timestamp == race.race_timestamp and back.track_name == "tr" and back.challenge_name == "c"
-            and back.user_tags == {"name": "n"} and back.track_params == {"p": 1} and back.rally_version == "2.12")
+            and back.user_tags == {tag_key: "n"} and back.track_params == {"p": 1} and back.rally_version == "2.12")
     observe("tasks survive the file", res2.tasks() == res.tasks())
     for t in res.tasks():
         observe("per-task metrics of %s survive the file unchanged (exact floats, zeros stay zeros)" % t, res2.metrics(t) == res.metrics(t))
@@ -470,7 +477,8 @@ HARNESSES = [
     Harness("incremental_hand_over", incremental_hand_over, "symbolic", lambda tier: [{"first": 2, "second": 2}, {"first": 1, "second": 3}], reads=READS, stubs=STUBS,
             assumptions=ASSUME + ["pickle/zlib round trip of the hand-over replaced by identity (pickle fidelity trusted)"], real_valued=True,
             bounds={"hand-overs": 2, "records": "2+2 / 1+3 symbolic real values"}, doc="queries between two hand-overs do not freeze later results"),
-    Harness("file_race_store", file_race_store, "bounded-exhaustive", lambda tier: [{"fail_first": False}, {"fail_first": True}],
+    Harness("file_race_store", file_race_store, "bounded-exhaustive", lambda tier: [{"fail_first": False, "tag": "name", "filters": "track"}, {"fail_first": True, "tag": "benchmark-name", "filters": "both"},
+                          {"fail_first": False, "tag": "benchmark-name", "filters": "name"}, {"fail_first": True, "tag": "name", "filters": "both"}],
             reads=READS + [metrics.FileRaceStore.store_race, metrics.FileRaceStore.find_by_race_id, metrics.FileRaceStore.list, metrics.FileRaceStore._to_races],
             assumptions=["runs on a real temporary directory with the real json module (finite family of values: %s)" % VALUES],
             bounds={"normal samples": "0..2 with values of the family", "global metrics": "one value of the family"},
